@@ -277,11 +277,11 @@ func runC06(c *Ctx) {
 	// ---- provenance
 	const rProv = "each Result field set by hit comes from the documented source and from nothing else"
 	want := map[string][]string{
-		"Attack":    {"atk.name"},
-		"Method":    {"tgt.Method"},
-		"URL":       {"tgt.URL"},
+		"Attack":    {"arg1.name"},
+		"Method":    {"var<lib.Target>.Method"},
+		"URL":       {"var<lib.Target>.URL"},
 		"Body":      {"io.ReadAll(body)#0"},
-		"BytesIn":   {"builtin:len(res.Body)"},
+		"BytesIn":   {"builtin:len(var<lib.Result>.Body)"},
 		"BytesOut":  {"req.ContentLength"},
 		"Code":      {"resp.StatusCode"},
 		"Headers":   {"resp.Header"},
@@ -385,12 +385,12 @@ func runC06(c *Ctx) {
 		gotKeys[k] = true
 		switch k {
 		case "X-Vegeta-Attack":
-			if describeVal(call.Call.Args[2]) != "atk.name" {
+			if describeVal(call.Call.Args[2]) != "arg1.name" {
 				okInj, whyInj = false, "X-Vegeta-Attack does not carry the attack name"
 			}
 			guarded := false
 			for _, f := range factsAt(call.Block()) {
-				if bo, isBo := f.Cond.(*ssa.BinOp); isBo && bo.Op == token.NEQ && f.Val && describeVal(bo.X) == "atk.name" {
+				if bo, isBo := f.Cond.(*ssa.BinOp); isBo && bo.Op == token.NEQ && f.Val && describeVal(bo.X) == "arg1.name" {
 					guarded = true
 				}
 			}
@@ -398,7 +398,7 @@ func runC06(c *Ctx) {
 				okInj, whyInj = false, "X-Vegeta-Attack is sent even for an unnamed attack"
 			}
 		case "X-Vegeta-Seq":
-			if describeVal(call.Call.Args[2]) != "strconv.FormatUint(res.Seq,10)" {
+			if normDecimal(describeVal(call.Call.Args[2])) != "decimal(var<lib.Result>.Seq)" {
 				okInj, whyInj = false, "X-Vegeta-Seq is "+describeVal(call.Call.Args[2])+", not this result's sequence number"
 			}
 			if len(factsAt(call.Block())) > 0 && !edgeDominates(call.Block(), 0, call.Block()) {
@@ -541,7 +541,7 @@ func c06Request(c *Ctx) {
 	if callName(&nr.Call) == "net/http.NewRequestWithContext" {
 		args = args[1:]
 	}
-	ok := describeVal(args[0]) == "t.Method" && describeVal(args[1]) == "t.URL"
+	ok := describeVal(args[0]) == "recv.Method" && describeVal(args[1]) == "recv.URL"
 	why := "method/URL do not come from the target"
 	if ok {
 		// body φ[nil, bytes.NewReader(t.Body)] under len(t.Body) != 0
@@ -549,9 +549,9 @@ func c06Request(c *Ctx) {
 		if phi, isPhi := args[2].(*ssa.Phi); isPhi {
 			for k, e := range phi.Edges {
 				if mi, isMI := e.(*ssa.MakeInterface); isMI {
-					if call, isCall := mi.X.(*ssa.Call); isCall && callName(&call.Call) == "bytes.NewReader" && describeVal(call.Call.Args[0]) == "t.Body" {
+					if call, isCall := mi.X.(*ssa.Call); isCall && callName(&call.Call) == "bytes.NewReader" && describeVal(call.Call.Args[0]) == "recv.Body" {
 						for _, f := range factsAt(phi.Block().Preds[k]) {
-							if bo, isBo := f.Cond.(*ssa.BinOp); isBo && lenOf(bo.X, func(v ssa.Value) bool { return describeVal(v) == "t.Body" }) {
+							if bo, isBo := f.Cond.(*ssa.BinOp); isBo && lenOf(bo.X, func(v ssa.Value) bool { return describeVal(v) == "recv.Body" }) {
 								if z, isZ := constInt(bo.Y); isZ && z == 0 && (bo.Op == token.NEQ && f.Val || bo.Op == token.GTR && f.Val || bo.Op == token.EQL && !f.Val) {
 									okB = true
 								}
